@@ -172,7 +172,13 @@ def connect_tls(*args, **kwargs):
     device_handler.add_additional_netconf_params(nc_params)
     session = transport.TLSSession(device_handler)
 
-    session.connect(*args, **kwargs)
+    try:
+        session.connect(*args, **kwargs)
+    except Exception:
+        # do not leave a half-open session (socket, session thread) behind
+        if session._socket:
+            session.close()
+        raise
 
     return Manager(session, device_handler, **manager_params)
 
@@ -188,7 +194,13 @@ def connect_uds(*args, **kwargs):
     device_handler.add_additional_netconf_params(nc_params)
     session = transport.UnixSocketSession(device_handler)
 
-    session.connect(*args, **kwargs)
+    try:
+        session.connect(*args, **kwargs)
+    except Exception:
+        # do not leave a half-open session (socket, session thread) behind
+        if session._socket:
+            session.close()
+        raise
 
     return Manager(session, device_handler, **manager_params)
 
